@@ -190,14 +190,16 @@ pub struct Chk {
     pub sess: Session,
     pub cfg_name: String,
     pub max_samples_per_kind: usize,
+    /// every n-th obligation is also sent to z3-new and cvc5 (0 = never)
+    pub cross_every: u64,
     sampled: BTreeMap<String, usize>,
 }
 impl Chk {
     pub fn new(mode: Mode, timeout_ms: u64) -> Chk {
-        Chk { rep: Report::default(), sess: Session::new(mode, timeout_ms), cfg_name: String::new(), max_samples_per_kind: 1, sampled: BTreeMap::new() }
+        Chk { rep: Report::default(), sess: Session::new(mode, timeout_ms), cfg_name: String::new(), max_samples_per_kind: 1, cross_every: 97, sampled: BTreeMap::new() }
     }
     pub fn with_session(sess: Session) -> Chk {
-        Chk { rep: Report::default(), sess, cfg_name: String::new(), max_samples_per_kind: 1, sampled: BTreeMap::new() }
+        Chk { rep: Report::default(), sess, cfg_name: String::new(), max_samples_per_kind: 1, cross_every: 97, sampled: BTreeMap::new() }
     }
     pub fn begin_config(&mut self, name: &str) {
         self.cfg_name = name.to_string();
@@ -213,6 +215,12 @@ impl Chk {
     fn ask(&mut self, asserts: &[String], get: &[String]) -> (Answer, Vec<(String, String)>) {
         let t0 = Instant::now();
         let r = self.sess.check_with(asserts, get);
+        if t0.elapsed().as_millis() > 1500 && std::env::var("VERIF_DEBUG").is_ok() {
+            if std::env::var("VERIF_DUMP_SMT").is_ok() {
+                let _ = std::fs::write(format!("/tmp/verif-slow-{}.smt2", self.rep.solver_queries), self.sess.standalone_last());
+            }
+            eprintln!("slow query {:.1}s -> {:?} :: {} :: {}", t0.elapsed().as_secs_f64(), r.0, self.cfg_name, asserts.last().map(|s| s.chars().take(200).collect::<String>()).unwrap_or_default());
+        }
         self.rep.solver_ms += t0.elapsed().as_millis() as u64;
         self.rep.solver_queries += 1;
         r
@@ -233,7 +241,32 @@ impl Chk {
     pub fn must_unsat(&mut self, kind: &str, name: &str, asserts: &[String], get: &[String]) -> Verdict {
         self.rep.obligations += 1;
         *self.rep.kinds.entry(kind.to_string()).or_default() += 1;
-        let (a, vals) = self.ask(asserts, get);
+        let (mut a, vals) = self.ask(asserts, get);
+        if let Answer::Unknown(_) = a {
+            // the primary solver gave up: ask the other installed solvers in fresh processes; only a definite
+            // `unsat` is accepted from them (a `sat` needs a model from the primary encoding to be replayed)
+            for alt in ["z3-new", "cvc5", "z3"] {
+                let t0 = Instant::now();
+                let r = self.sess.second_opinion(alt, self.sess.timeout_ms);
+                self.rep.solver_ms += t0.elapsed().as_millis() as u64;
+                *self.rep.kinds.entry(format!("fallback to {alt} after unknown")).or_default() += 1;
+                if r == Answer::Unsat {
+                    a = r;
+                    break;
+                }
+            }
+        } else if self.cross_every > 0 && self.rep.obligations % self.cross_every == 0 && std::env::var("VERIF_NO_CROSS").is_err() {
+            // solver cross-check on a sample of the obligations
+            for alt in ["z3-new", "cvc5"] {
+                let r = self.sess.second_opinion(alt, self.sess.timeout_ms.min(5_000));
+                *self.rep.kinds.entry(format!("cross-checked with {alt}")).or_default() += 1;
+                match (&a, &r) {
+                    (Answer::Unsat, Answer::Sat) | (Answer::Sat, Answer::Unsat) => self.rep.errors.push(format!("{} / {}: solvers disagree: z3 {:?} vs {alt} {:?}", self.cfg_name, name, a, r)),
+                    (_, Answer::Unknown(_)) => *self.rep.kinds.entry(format!("cross-check {alt} gave no verdict")).or_default() += 1,
+                    _ => {}
+                }
+            }
+        }
         match a {
             Answer::Unsat => {
                 self.rep.discharged += 1;
